@@ -36,7 +36,7 @@ fn slots(last: bool, reduced: bool) -> Vec<Slot> {
         ("panic", Finish::Panic, true),
     ];
     if !reduced {
-        fins.push(("raw", Finish::Writer { parts: vec![], flush: false }, false));
+        fins.push(("raw", Finish::Writer { parts: vec![], flush: true }, false));
         if last {
             fins.push(("upgrade", Finish::Upgrade, false));
         }
@@ -65,6 +65,8 @@ struct Item {
     slots: Vec<Slot>,
     per_thread: bool,
     bound: u32,
+    /// the client sends only this many bytes of the LAST request and then waits
+    withhold_tail: Option<usize>,
 }
 
 fn items(tier: Tier) -> &'static Vec<Item> {
@@ -76,7 +78,7 @@ fn items(tier: Tier) -> &'static Vec<Item> {
         let mut v = Vec::new();
         for per_thread in [false, true] {
             for s in slots(true, false) {
-                v.push(Item { slots: vec![s], per_thread, bound: if thorough { 2 } else { 1 } });
+                v.push(Item { slots: vec![s], per_thread, bound: if thorough { 2 } else { 1 }, withhold_tail: None });
             }
             for a in slots(false, !thorough) {
                 for b in slots(true, !thorough) {
@@ -85,6 +87,7 @@ fn items(tier: Tier) -> &'static Vec<Item> {
                         slots: vec![a.clone(), b.clone()],
                         per_thread,
                         bound: if !per_thread { 0 } else if thorough { if risky { 2 } else { 1 } } else if risky { 1 } else { 0 },
+                        withhold_tail: None,
                     });
                 }
             }
@@ -96,7 +99,35 @@ fn items(tier: Tier) -> &'static Vec<Item> {
                             slots: vec![a.clone(), b.clone(), c.clone()],
                             per_thread,
                             bound: if thorough && risky && per_thread { 1 } else { 0 },
+                            withhold_tail: None,
                         });
+                    }
+                }
+            }
+        }
+        // the last request has a large body of which the client sends only a part, then
+        // waits for the answer: every way of finishing without reading it all must still
+        // produce the final response at once
+        for per_thread in [false, true] {
+            for first in [None, Some(slots(false, true)[0].clone())] {
+                for last in slots(true, false) {
+                    if !(last.label.starts_with("cl2000") || last.label.starts_with("chunked2000")) || last.label.contains("-all-") || last.label.contains("upgrade") || last.label.ends_with("-raw") {
+                        // into_writer() skips the unread body before it hands the writer
+                        // out: with a client that withholds the body that is a wait the
+                        // statement does not rule out (noted in DESIGN.md), not judged here
+                        continue;
+                    }
+                    for sent_body in [0usize, 800] {
+                        if sent_body < 700 && last.label.contains("-part-") {
+                            continue;
+                        }
+                        let mut sl = Vec::new();
+                        if let Some(f) = &first {
+                            sl.push(f.clone());
+                        }
+                        let head_len = last.request.windows(4).position(|w| w == b"\r\n\r\n").map_or(0, |p| p + 4);
+                        sl.push(last.clone());
+                        v.push(Item { slots: sl, per_thread, bound: if thorough && per_thread { 1 } else { 0 }, withhold_tail: Some(head_len + sent_body) });
                     }
                 }
             }
@@ -118,6 +149,11 @@ fn scenario(it: &Item) -> Scenario {
     }
     let mut app = AppProgram::with_plans(plans);
     app.thread_per_request = it.per_thread;
+    if let Some(keep) = it.withhold_tail {
+        let last_len = it.slots.last().map_or(0, |s| s.request.len());
+        let cut = bytes.len() - last_len + keep.min(last_len);
+        bytes.truncate(cut);
+    }
     let mut sc = Scenario::one_conn(vec![bytes], app);
     if matches!(it.slots.last().map(|s| &s.plan.finish), Some(Finish::Upgrade)) {
         sc.script.push((0, Step::CloseWrite));
